@@ -18,6 +18,9 @@ import RotoV.Lemmas.LayoutRead
 import RotoV.Lemmas.LayoutWrite
 import RotoV.Lemmas.LayoutListEq
 import RotoV.Lemmas.ValueCtor
+import RotoV.Lemmas.ValueMatch
+import RotoV.Lemmas.ValueMir
+import RotoV.Generated.ValueMatchGen
 
 namespace RotoV.C02
 open RotoV RotoV.Layout RotoV.LayoutStd RotoV.Gen.LayoutGen RotoV.Gen.LayoutListEq
@@ -726,5 +729,106 @@ theorem unmaterialised_component_refuted :
       (runBody false e σ).1.get 0 = .int 9 ∧ (eval e σ).1.get 0 = .int 3 :=
   ⟨.ctor (.cons (.read 0 []) (.cons (.blk 0 [] (.lit (.int 9)) (.lit (.int 1))) .nil)), [.int 3],
     by decide, by decide, by decide⟩
+
+/-- **T9 `match_examinee_is_a_copy`** — "pattern-binding one yields an independent copy … match
+    bindings (with guards and `_` arms) read exactly the component the source names": the `match`
+    `Lowerer::match` emits — discriminant read once, then per candidate arm the bindings RE-READ
+    from the examinee variable after the guards of the earlier arms have run — is value semantics
+    on the value the examinee had when the match started: same arm, same bindings, same store
+    (plus the temporary), for EVERY list of arms (guards are arbitrary state transformers: they may
+    assign the matched variable, move it to another variant, …) that cannot name the lowerer's
+    temporary. Stated over `Gen.ValueMatchGen.examineeSteps`, the `let examinee = …;` statements
+    the translator reads off `src/mir/lower/match_expr.rs` on every run: if the examinee stops
+    being materialised (for some shape of expression) the definition changes — or leaves the
+    subset — and this proof breaks. Model-level: that `lowArms` is what `match_case` emits is
+    validated by the behavioural run (176 held-copy representatives + generated guards). -/
+theorem match_examinee_is_a_copy (x tmp : Nat) (arms : List ValueMatch.Arm) (s : ValueMatch.St)
+    (hb : ValueMatch.armsBlindTo arms tmp) :
+    ValueMatch.lowMatch Gen.ValueMatchGen.examineeSteps x tmp arms s
+      = (ValueMatch.specMatch x arms s).map fun p => (p.1, p.2.setEnum tmp (s.enums x)) :=
+  ValueMatch.lowMatch_copied x tmp arms s hb
+
+/-- not vacuous: arms whose guard overwrites the matched variable and says no are blind to the
+    temporary; the spec then takes the second arm with the ORIGINAL payload while `x` is changed -/
+example : ValueMatch.armsBlindTo ValueMatch.wArms 7 ∧
+    (ValueMatch.specMatch 0 ValueMatch.wArms ValueMatch.wStore).map
+      (fun p => (p.1, p.2.leaves 2, (p.2.enums 0).fs)) = some (1, 5, [105]) :=
+  ⟨ValueMatch.wArms_blind, by decide⟩
+
+/-- **`match_arm_and_bindings_are_of_the_matched_value`** — T9 as an observation: the arm taken,
+    every pattern variable and every variable other than the temporary agree with value semantics. -/
+theorem match_arm_and_bindings_are_of_the_matched_value (x tmp : Nat) (arms : List ValueMatch.Arm)
+    (s : ValueMatch.St) (hb : ValueMatch.armsBlindTo arms tmp) :
+    ValueMatch.observe tmp (ValueMatch.lowMatch Gen.ValueMatchGen.examineeSteps x tmp arms s)
+      = ValueMatch.observe tmp (ValueMatch.specMatch x arms s) := by
+  rw [match_examinee_is_a_copy x tmp arms s hb, ValueMatch.observe_setEnum]
+
+example : ValueMatch.observe 7 (ValueMatch.lowMatch Gen.ValueMatchGen.examineeSteps 0 7 ValueMatch.wArms ValueMatch.wStore)
+    = ValueMatch.observe 7 (ValueMatch.specMatch 0 ValueMatch.wArms ValueMatch.wStore) :=
+  match_arm_and_bindings_are_of_the_matched_value 0 7 _ _ ValueMatch.wArms_blind
+
+/-- **`match_on_the_variable_itself_refuted`** — the other answer to the one decision (seeded change
+    C02-8: for a plain variable the examinee is the user's variable itself, steps `[evalExpr]`)
+    does NOT compute the spec: `match x { Some(a) if { x = Some(105); false } => …, Some(b) => b }`
+    with `x = Some(5)` binds `b = 105`; value semantics binds `b = 5`. -/
+theorem match_on_the_variable_itself_refuted :
+    ∃ (arms : List ValueMatch.Arm) (s : ValueMatch.St), ValueMatch.armsBlindTo arms 7 ∧
+      (ValueMatch.lowMatch [.evalExpr] 0 7 arms s).map (fun p => (p.1, p.2.leaves 2)) = some (1, 105) ∧
+      (ValueMatch.specMatch 0 arms s).map (fun p => (p.1, p.2.leaves 2)) = some (1, 5) :=
+  ⟨ValueMatch.wArms, ValueMatch.wStore, ValueMatch.wArms_blind, by decide, by decide⟩
+
+/-- **`match_bindings_read_the_switched_value_mir`** — soundness of the checker `matchIsOnCopy` that
+    every MIR item of every generated script goes through (the REAL lowerer's output, hook dump,
+    `c02 mirmatch`): if the checker accepts an item then, on EVERY path of its control-flow graph —
+    every combination of guards saying yes or no, every iteration of an enclosing loop —, between a
+    node `d` that reads the discriminant of a variable `v` and a later node `r` that extracts a
+    pattern binding from `v` (no other discriminant read of `v` in between), NO node writes `v` or a
+    part of it, sets its discriminant, drops or moves it. The quantifier over the paths through the
+    guards is this theorem; the quantifier over programs is sampled on compiler output. This closes
+    the gap T9 left open (`lowArms` = what `match_case` emits): whatever `match_case` emits, the
+    bindings of every arm are components of the value whose discriminant was switched on. -/
+theorem match_bindings_read_the_switched_value_mir (it : ValueMir.Item)
+    (h : ValueMir.matchIsOnCopy it = true) (v d : Nat) (mid : List Nat) (r : Nat)
+    (hp : ValueMir.IsPath (ValueMir.flatten it) (d :: (mid ++ [r])))
+    (hr : v ∈ (ValueMir.node (ValueMir.flatten it) r).binds)
+    (hmid : ∀ m ∈ mid, v ∉ (ValueMir.node (ValueMir.flatten it) m).discr) :
+    ∀ m ∈ mid, v ∉ (ValueMir.node (ValueMir.flatten it) m).affects :=
+  ValueMir.graphOk_bindings_of_switched_value h v d mid r hp hr hmid
+
+/-- not vacuous: the item `wOnCopy` (a guard writes the matched variable `x` between two binding
+    extractions from the copy `$1`) is accepted, nodes 1 … 6 are a path from the discriminant read
+    to the second extraction, and a node on it does affect ANOTHER variable (`x`) -/
+example : ValueMir.matchIsOnCopy ValueMir.wOnCopy = true ∧
+    ValueMir.IsPath (ValueMir.flatten ValueMir.wOnCopy) [1, 2, 3, 4, 5, 6] ∧
+    1 ∈ (ValueMir.node (ValueMir.flatten ValueMir.wOnCopy) 1).discr ∧
+    1 ∈ (ValueMir.node (ValueMir.flatten ValueMir.wOnCopy) 6).binds ∧
+    0 ∈ (ValueMir.node (ValueMir.flatten ValueMir.wOnCopy) 4).affects := by decide
+
+/-- **`match_write_then_binding_rereads_discriminant_mir`** — the same soundness, read from the
+    write: after any node that affects `v`, no binding is extracted from `v` before the
+    discriminant of `v` has been read again. -/
+theorem match_write_then_binding_rereads_discriminant_mir (it : ValueMir.Item)
+    (h : ValueMir.matchIsOnCopy it = true) (v a : Nat) (mid : List Nat) (r : Nat)
+    (hp : ValueMir.IsPath (ValueMir.flatten it) (a :: (mid ++ [r])))
+    (ha : v ∈ (ValueMir.node (ValueMir.flatten it) a).affects)
+    (hr : v ∈ (ValueMir.node (ValueMir.flatten it) r).binds) :
+    ∃ m ∈ mid, v ∈ (ValueMir.node (ValueMir.flatten it) m).discr :=
+  ValueMir.graphOk_sound h v a mid r hp ha hr
+
+example : ∃ m ∈ [1, 2], 1 ∈ (ValueMir.node (ValueMir.flatten ValueMir.wOnCopy) m).discr :=
+  match_write_then_binding_rereads_discriminant_mir ValueMir.wOnCopy (by decide) 1 0 [1, 2] 3
+    (by decide) (by decide) (by decide)
+
+/-- **`mir_checker_rejects_match_on_the_variable`** — the checker is not trivially `true`: the MIR
+    shape seeded change C02-8 produces (discriminant and bindings read from the user's variable,
+    which a guard assigns between two extractions) is rejected, and on it the conclusion of the
+    soundness theorem indeed fails (node 4 writes `x` between the discriminant read and the second
+    extraction). -/
+theorem mir_checker_rejects_match_on_the_variable :
+    ValueMir.matchIsOnCopy ValueMir.wOnVariable = false ∧
+    ValueMir.IsPath (ValueMir.flatten ValueMir.wOnVariable) [0, 1, 2, 3, 4, 5] ∧
+    0 ∈ (ValueMir.node (ValueMir.flatten ValueMir.wOnVariable) 0).discr ∧
+    0 ∈ (ValueMir.node (ValueMir.flatten ValueMir.wOnVariable) 5).binds ∧
+    0 ∈ (ValueMir.node (ValueMir.flatten ValueMir.wOnVariable) 3).affects := by decide
 
 end RotoV.C02
